@@ -583,7 +583,7 @@ var lastViolation struct {
 
 func saveReplay(c any, v *Violation) string {
 	dir := filepath.Join(VerifDir(), "replays", PropID(), "found",
-		fmt.Sprintf("%s-%s", sanitize(v.Key), Hash(fmt.Sprint(time.Now().UnixNano()), strconv.Itoa(os.Getpid()))))
+		fmt.Sprintf("%s%s-%s", env("VCHECK_FOUND_TAG", ""), sanitize(v.Key), Hash(fmt.Sprint(time.Now().UnixNano()), strconv.Itoa(os.Getpid()))))
 	if err := os.MkdirAll(dir, 0o755); err != nil {
 		return ""
 	}
